@@ -1104,6 +1104,9 @@ pub fn run(cfg: &Cfg) -> Report {
       rep.hit(&format!("fault {} → {}", if kind.starts_with("pair:") { "pair" } else { kind }, obs.stage));
       if id == 0 {
         rep.hit(&format!("base → {}", obs.stage));
+        if obs.stage != "ok" {
+          rep.notes.push(format!("base {} → {}", bname, obs.stage));
+        }
       }
       let faulted = apply(btext, &w.cases[id].1);
       if let Some(sig) = signature(kind, &obs, &faulted) {
